@@ -93,6 +93,10 @@ def scenarios(sh, rng, mk, hid):
             if how == 'set-none':
                 t = rng.choice(db.tables)
                 c = rng.choice(t.columns)
+                enumcols = [(t_, c_) for t_ in db.tables for c_ in t_.columns if not isinstance(c_.type, str)]
+                if attr == 'name' and enumcols and rng.random() < 0.6:
+                    t, c = rng.choice(enumcols)         # an enum-typed column
+                    sh.count('class.enum_typed_column_without_name')
                 setattr(c, attr, None)
                 expect(sh, f'column-no-{attr}|{how}|column.sql', AME, lambda: c.sql, case, hid)
                 expect(sh, f'column-no-{attr}|{how}|table.sql', AME, lambda: t.sql, case, hid)
@@ -137,6 +141,15 @@ def scenarios(sh, rng, mk, hid):
     expect(sh, 'index-detached|delete_index|index.sql', AME, lambda: ix2.sql, case, hid)
     ix3 = Index([t.columns[0]], pk=True)
     expect(sh, 'index-detached|never-attached-pk|index.sql', AME, lambda: ix3.sql, case, hid)
+    # an index that add_index refused (it is over another table's column) is still attached to nothing
+    other = next(x for x in db.tables if x is not t)
+    for pkflag in (False, True):
+        ix4 = Index([other.columns[0]], unique=True, pk=pkflag)
+        try:
+            t.add_index(ix4)
+        except Exception:
+            pass
+        expect(sh, f'index-detached|add_index-refused{"-pk" if pkflag else ""}|index.sql', AME, lambda: ix4.sql, case, hid)
     # ---- reference with a table-less column ---------------------------------------------------
     for kind in ('>', '<', '-', '<>'):
         for inline in (False, True):
@@ -217,6 +230,8 @@ def scenarios(sh, rng, mk, hid):
                         r.col2 = [t2.columns[0], t1.columns[1]]
                 tag = f'{kind}|side{side}|{how}'
                 expect(sh, f'ref-mixed-side|table{side}|{tag}', DBE, (lambda: r.table1) if side == 1 else (lambda: r.table2), case, hid)
+                # asking for the table of the OTHER (consistent) side is refused as well: the reference as a whole is inconsistent
+                expect(sh, f'ref-mixed-side|other-table|{tag}', DBE, (lambda: r.table2) if side == 1 else (lambda: r.table1), case, hid)
                 expect(sh, f'ref-mixed-side|ref.dbml|{tag}', DBE, lambda: r.dbml, case, hid)
                 if kind == '<>':
                     expect(sh, f'ref-mixed-side|join_table|{tag}', DBE, lambda: r.join_table, case, hid)
